@@ -22,10 +22,18 @@
 (*  R  st w api k i c lane n a chg         ReadOperand (RO, a = the uint64)*)
 (*                                         ReadOperandBytes (RB, n = byte  *)
 (*                                         count), VCC()/EXEC()/SCC() (GET)*)
-(*                                         RegisterFile.Read (RF, timing)  *)
+(*                                         RegisterFile.Read (RF, timing), *)
+(*                                         ReadReg of emu.Wavefront / of   *)
+(*                                         the RegFileAccessor (RR)        *)
 (*  X  st w chg                            wavefront ended (timing:        *)
 (*                                         resetRegisterValue ran)         *)
 (*  Panic st w api k i c lane msg chg      the real code panicked          *)
+(*  Held  st h                             answers of earlier reads the    *)
+(*                                         driver is still holding (the    *)
+(*                                         returned byte slices themselves,*)
+(*                                         not copies), re-reported after  *)
+(*                                         later operations: h = <<seq of  *)
+(*                                         the R line, bytes now>>...      *)
 (*                                                                         *)
 (* After EVERY operation the driver re-reads every register of every live  *)
 (* wavefront of that store through the store's own read interface (all ns  *)
@@ -49,8 +57,9 @@ CONSTANTS Deviations
 TraceLog == ndJsonDeserialize("trace.ndjson")
 N == Len(TraceLog)
 
-VARIABLES l, allocE, cellE, allocT, cellT
-tvars == <<l, allocE, cellE, allocT, cellT>>
+VARIABLES l, allocE, cellE, allocT, cellT,
+          held    \* sequence number of an R line -> the answer it returned (the driver keeps holding it)
+tvars == <<l, allocE, cellE, allocT, cellT, held>>
 
 ZeroBytes(c) == IF c = 253 THEN <<0>> ELSE <<0, 0, 0, 0>>
 
@@ -96,9 +105,9 @@ Keep == UNCHANGED <<allocE, cellE, allocT, cellT>>
 SetCell(new) == IF Emu THEN cellE' = new /\ UNCHANGED <<allocE, allocT, cellT>>
                        ELSE cellT' = new /\ UNCHANGED <<allocE, cellE, allocT>>
 
-TInit == l = 1 /\ allocE = <<>> /\ cellE = <<>> /\ allocT = <<>> /\ cellT = <<>>
+TInit == l = 1 /\ allocE = <<>> /\ cellE = <<>> /\ allocT = <<>> /\ cellT = <<>> /\ held = <<>>
 
-TReset == Is("Reset") /\ allocE' = <<>> /\ cellE' = <<>> /\ allocT' = <<>> /\ cellT' = <<>>
+TReset == Is("Reset") /\ allocE' = <<>> /\ cellE' = <<>> /\ allocT' = <<>> /\ cellT' = <<>> /\ held' = <<>>
 
 \* ---------------------------------------------------------------- dispatch
 InitFn == [x \in {<<Ev.init[n][1], Ev.init[n][2]>> : n \in 1..Len(Ev.init)} |->
@@ -109,11 +118,13 @@ TDispatch ==
   /\ LET a == [ns |-> Ev.ns, nv |-> Ev.nv]
      IN  IF Emu THEN E!Dispatch(Ev.w, a, InitFn) /\ UNCHANGED <<allocT, cellT>>
                 ELSE T!Dispatch(Ev.w, a, InitFn) /\ UNCHANGED <<allocE, cellE>>
+  /\ UNCHANGED held
 
 TRelease ==
   /\ Is("X") /\ Quiet                           \* ending a wavefront changes nobody else's registers
   /\ IF Emu THEN E!Release(Ev.w) /\ UNCHANGED <<allocT, cellT>>
             ELSE T!Release(Ev.w) /\ UNCHANGED <<allocE, cellE>>
+  /\ UNCHANGED held
 
 \* ------------------------------------------------------------------ writes
 \* bytes the call stores: WriteOperand takes the low bytes of the uint64
@@ -134,7 +145,7 @@ AsImplVcchi == E!Put(Cell, Ev.w, <<106, 107>>,
                      <<(<<0, 0, 0, 0>>), OrBytes(GetIn(Cell, <<Ev.w, 107>>), WData)>>)
 
 TWrite ==
-  /\ Is("W") /\ Valid /\ WApiOK /\ IsBytes(Ev.d)
+  /\ Is("W") /\ Valid /\ WApiOK /\ IsBytes(Ev.d) /\ UNCHANGED held
   /\ IF DiffOK(Cell, Intended, Ev.chg)
      THEN SetCell(Intended)
      ELSE /\ Emu /\ Ev.k = "vcchi" /\ Ev.c = 1 /\ Ev.api \in {"WO", "WB"}
@@ -146,12 +157,13 @@ TWrite ==
 All == Flatten(ReadVals)
 Expected ==
   CASE Ev.api \in {"RB", "RF"} -> Prefix(All, Ev.n)
+    [] Ev.api = "RR" -> All
     [] Ev.api = "RO" -> Pad8(Prefix(All, 8))
     [] Ev.api = "GET" -> All
 RApiOK ==
   CASE Ev.api = "RB" -> Ev.n >= 1
     [] Ev.api = "RF" -> Ev.n = WBytes /\ ~Emu /\ Ev.k \in {"s", "v"}
-    [] Ev.api = "RO" -> TRUE
+    [] Ev.api \in {"RO", "RR"} -> TRUE
     [] Ev.api = "GET" -> <<Ev.k, Ev.c>> \in {<<"vcclo", 2>>, <<"execlo", 2>>, <<"scc", 0>>}
     [] OTHER -> FALSE
 
@@ -162,24 +174,34 @@ AsImplHalfRead ==
   /\ Emu /\ Ev.c = 0
   /\ \/ Ev.k \in {"vcclo", "vcchi"} /\ Ev.api = "RO" /\ Ev.a = VccPair
      \/ Ev.k = "vcchi" /\ Ev.api = "RB" /\ Ev.a = Prefix(GetIn(Cell, <<Ev.w, 106>>), Ev.n)
+     \/ Ev.k = "vcchi" /\ Ev.api = "RR" /\ Ev.a = GetIn(Cell, <<Ev.w, 106>>)
 
 TRead ==
   /\ Is("R") /\ Valid /\ RApiOK /\ Quiet        \* a read changes nothing
   /\ \/ Ev.a = Expected
      \/ Ev.a # Expected /\ AsImplHalfRead /\ Dev("EmuVccHalfC0R")
   /\ Keep
+  \* the driver goes on holding the returned bytes (the slice itself where the call returns one)
+  /\ held' = [k \in (DOMAIN held) \cup {Ev.seq} |-> IF k = Ev.seq THEN Ev.a ELSE held[k]]
+
+\* a returned value is a value: whatever was read or written since, the bytes an
+\* earlier read returned are still the bytes it returned
+THeld ==
+  /\ Is("Held")
+  /\ \A n \in 1..Len(Ev.h) : Ev.h[n][1] \in DOMAIN held /\ held[Ev.h[n][1]] = Ev.h[n][2]
+  /\ Keep /\ UNCHANGED held
 
 \* ------------------------------------------------------------------ panics
 \* a panic is never a behaviour of the register file; the pinned tree's
 \* unsupported operands are listed deviations (state untouched)
 TPanic ==
-  /\ Is("Panic") /\ Valid /\ Quiet /\ Ev.api \in {"RO", "RB", "WO", "WB"}
+  /\ Is("Panic") /\ Valid /\ Quiet /\ Ev.api \in {"RO", "RB", "RR", "WO", "WB"} /\ UNCHANGED held
   /\ \/ Ev.k = "exechi" /\ Dev("ExecHiNone")
-     \/ Emu /\ Ev.k = "execlo" /\ Ev.c <= 1 /\ Ev.api \in {"RB", "WO", "WB"} /\ Dev("EmuExecLoNone")
-     \/ Emu /\ Ev.k \in {"s", "v"} /\ Ev.api = "RB" /\ Len(Cells) > 8 /\ Dev("EmuReadRegOver8")
+     \/ Emu /\ Ev.k = "execlo" /\ Ev.c <= 1 /\ Ev.api \in {"RB", "RR", "WO", "WB"} /\ Dev("EmuExecLoNone")
+     \/ Emu /\ Ev.k \in {"s", "v"} /\ Ev.api \in {"RB", "RR"} /\ Len(Cells) > 8 /\ Dev("EmuReadRegOver8")
   /\ Keep
 
-TNext == TReset \/ TDispatch \/ TRelease \/ TWrite \/ TRead \/ TPanic
+TNext == TReset \/ TDispatch \/ TRelease \/ TWrite \/ TRead \/ THeld \/ TPanic
 TSpec == TInit /\ [][TNext]_tvars
 
 Mark == HWNote(l)
